@@ -2,7 +2,7 @@
    opt_test P ns B ps ds = Some s  implies  check_kkt (literal bounds) on the
    clamped vectors the test stored in the cache; with no component on a
    sentinel bound also check_kkt for the reading "sentinel = no bound". *)
-From QSX Require Export LP.OptTest LP.CertSound.
+From QSX Require Export LP.OptTest LP.CertSound LP.User.
 Local Open Scope Q_scope.
 
 (* ---- small list facts ----------------------------------------------------- *)
@@ -318,3 +318,35 @@ Qed.
 Corollary infeas_test_sound M P y :
   wf_ilp P = true -> infeas_test M P y = true -> infeasible (inf_sentinel M) P.
 Proof. intros W H. apply (check_farkas_sound _ _ y). apply infeas_test_farkas; assumption. Qed.
+
+(* ---- non-vacuity: the premises of the theorems above are satisfiable ---------- *)
+(* max 3x + 2y + 4z,  3x + 2y + z <= 12,  5y + 3z <= 10,  x,y,z >= 0  (the LP of the repository's test) *)
+Definition Mx : Q := 1000000 # 1.
+Definition U_ex : ulp :=
+  {| u_max := true;
+     u_cols := [ {| uc_obj := 3; uc_lo := 0; uc_up := Mx |}; {| uc_obj := 2; uc_lo := 0; uc_up := Mx |};
+                 {| uc_obj := 4; uc_lo := 0; uc_up := Mx |} ];
+     u_rows := [ {| ur_sense := SL; ur_rhs := 12; ur_range := 0; ur_ent := [(0%nat, 3); (1%nat, 2); (2%nat, 1)] |};
+                 {| ur_sense := SL; ur_rhs := 10; ur_range := 0; ur_ent := [(1%nat, 5); (2%nat, 3)] |} ] |}.
+Definition B_ex : basis := {| cstat := [BBasic; BLower; BBasic]; rstat := [BLower; BLower] |}.
+
+Example opt_test_accepts :
+  exists s, opt_test (to_internal Mx U_ex) 3 B_ex [26 # 9; 0; 10 # 3; 0; 0] [1; 1] = Some s /\
+            Qeq_bool (sval s) 22 = true /\ no_sentinel Mx (to_internal Mx U_ex) (sx s ++ sslack s) = true.
+Proof. eexists. split; [vm_compute; reflexivity|]. split; vm_compute; reflexivity. Qed.
+
+(* a perturbed primal point is rejected *)
+Example opt_test_rejects :
+  opt_test (to_internal Mx U_ex) 3 B_ex [3; 0; 10 # 3; 0; 0] [1; 1] = None.
+Proof. vm_compute. reflexivity. Qed.
+
+(* a genuine Farkas vector is accepted: x + y <= 1 and x + y >= 2 with x, y >= 0 *)
+Definition U_inf : ulp :=
+  {| u_max := false;
+     u_cols := [ {| uc_obj := 1; uc_lo := 0; uc_up := Mx |}; {| uc_obj := 1; uc_lo := 0; uc_up := Mx |} ];
+     u_rows := [ {| ur_sense := SL; ur_rhs := 1; ur_range := 0; ur_ent := [(0%nat, 1); (1%nat, 1)] |};
+                 {| ur_sense := SG; ur_rhs := 2; ur_range := 0; ur_ent := [(0%nat, 1); (1%nat, 1)] |} ] |}.
+Example infeas_test_accepts : infeas_test Mx (to_internal Mx U_inf) [-1; 1] = true.
+Proof. vm_compute. reflexivity. Qed.
+Example infeas_test_rejects : infeas_test Mx (to_internal Mx U_inf) [1; 1] = false.
+Proof. vm_compute. reflexivity. Qed.
